@@ -119,6 +119,11 @@ fn difficulties(dst: u8, n: u32, rich: bool) -> Vec<(String, Difficulty)> {
     if dst == 1 {
         base.push(Setting::mods(ModSpec::Random(Some(21.0))));
     }
+    if dst == 2 {
+        // an explicit hard-rock-offsets choice that contradicts the mods, both ways
+        base.push(Setting { hr_offsets: Some(false), ..Setting::bits(settings::HR) });
+        base.push(Setting { hr_offsets: Some(true), ..Setting::nm() });
+    }
     if rich {
         base.push(Setting::bits(settings::EZ | settings::HT | settings::FL));
         base.push(Setting { lazer: Some(false), ..Setting::mods(ModSpec::Classic(None)) });
@@ -245,6 +250,49 @@ fn main() {
                             )
                         });
                         return;
+                    }
+                    // the same settings through the calculator's own setters (in the order a Difficulty is described) instead of a
+                    // Difficulty value
+                    {
+                        let i = d.clone().inspect();
+                        let mut p = Performance::new(&conv).mods(i.mods.clone());
+                        if let Some(v) = i.passed_objects {
+                            p = p.passed_objects(v);
+                        }
+                        if let Some(v) = i.clock_rate {
+                            p = p.clock_rate(v);
+                        }
+                        if let Some(v) = &i.ar {
+                            p = p.ar(v.value, v.with_mods);
+                        }
+                        if let Some(v) = &i.cs {
+                            p = p.cs(v.value, v.with_mods);
+                        }
+                        if let Some(v) = &i.hp {
+                            p = p.hp(v.value, v.with_mods);
+                        }
+                        if let Some(v) = &i.od {
+                            p = p.od(v.value, v.with_mods);
+                        }
+                        if let Some(v) = i.hardrock_offsets {
+                            p = p.hardrock_offsets(v);
+                        }
+                        if let Some(v) = i.lazer {
+                            p = p.lazer(v);
+                        }
+                        let got = sc.apply(p).calculate();
+                        l.checked(1);
+                        if !same(&got, &reference) {
+                            l.violation("own_setters", || {
+                                format!(
+                                    "cfg={:?}\nspec={}\ndifficulty={dname}\nscore={sc:?}\nPerformance::new(&map) configured through its own setters differs from .difficulty(Difficulty)\n setters   : {got:?}\n difficulty: {reference:?}\n--- .osu ---\n{}",
+                                    u.cfg,
+                                    spec.describe(),
+                                    spec.text()
+                                )
+                            });
+                            return;
+                        }
                     }
                     // converts: the whole configuration applied to the calculator of the *source* map, then the mode switch
                     // (n_katu / n_geki / a full state do not exist on an osu! calculator — set there, they are dropped by design,
